@@ -15,8 +15,7 @@ TS_RULES = {"ruleLatentDOM", "ruleLatentDOY", "ruleLatentDOW", "ruleLatentPOD", 
 
 QUICK_PODS = ["morning", "afternoon", "night", "last", "veryearlymorning", "noon"]
 THOROUGH_PODS = ["morning", "forenoon", "afternoon", "noon", "evening", "night", "first", "last", "earlymorning", "lateevening", "veryearlymorning", "verylatenight",
-                 "earlyearlymorning", "latelatenight", "veryearlyearlymorning", "verylatelatenight", "earlylast", "latefirst", "earlyafternoon", "lateforenoon",
-                 "earlynoon", "lateevening", "verylateevening", "veryearlyafternoon"]
+                 "earlyearlymorning", "verylatelatenight"]
 MULTI_PODS = ["morning", "night", "veryearlymorning"]
 CLAUSES = {"C02": ["exc", "wf", "closure", "span"], "C01": ["exc", "wf"], "C15": ["frame"], "C12": ["frame"]}
 PER_RULE_QUICK = {"C02": 4, "C01": 2, "C15": 2, "C12": 1}
@@ -65,7 +64,7 @@ def wf_jobs(prop, tier, rules=None, cell=(2024, 2), lift=True, timeout=None, ext
         if name in ARITH:
             years = [2024] if tier == "quick" else [2023, 2024]
             spec["years"] = years
-            spec["ym"] = [[2024, 2]] if tier == "quick" else [[2023, 2], [2023, 12], [2024, 2], [2024, 3]]
+            spec["ym"] = [[2024, 2]] if tier == "quick" else [[2023, 2], [2024, 2]]
             spec["maxdur"] = 12 if tier == "quick" else 120
         npod = sum(str(a[1]).count("POD") for a in ob["args"])
         if npod >= 2:
@@ -73,7 +72,7 @@ def wf_jobs(prop, tier, rules=None, cell=(2024, 2), lift=True, timeout=None, ext
         elif npod and tier == "quick":
             spec["pods"] = qp
         elif npod and prop != "C19":
-            spec["pods"] = tp          # thorough: 24 table keys; every key of the table: POD-CLOSED (C19), C06 and C04
+            spec["pods"] = tp          # thorough: 14 table keys; every key of the table: POD-CLOSED (C19), C06 and C04
         variants = [(spec, "")]
         if name in TS_RULES and prop in ("C01", "C02"):
             # rules that read the reference time: more year-month cells (after a leap day, year end)
@@ -135,7 +134,7 @@ def wf_jobs(prop, tier, rules=None, cell=(2024, 2), lift=True, timeout=None, ext
                 elif npod and tier == "quick":
                     spec["pods"] = qp
                 if k.count("year"):
-                    spec["ym"] = [[2024, 2], [2023, 2]] if tier == "quick" else [[2023, 2], [2023, 12], [2024, 2], [2024, 4]]
+                    spec["ym"] = [[2024, 2], [2023, 2]] if tier == "quick" else [[2023, 2], [2023, 12], [2024, 2]]
                 env = {"VQ_PROP": prop, "VQ_SPEC": json.dumps(spec), "VQ_Y": str(cell[0]), "VQ_M": str(cell[1])}
                 jobs.append(Job("{}.WF[{}({})]".format(prop, pseudo, k), "vq.harness.h_wf", "ob_step", env=env, timeout=timeout or (600 if tier == "quick" else 1500),
                                 bounds="every value of shape {} inside WF{}; ts: every instant of {}-{:02d}".format(k, "; dated fields in cells %s" % spec["ym"] if "ym" in spec else "", cell[0], cell[1]),
